@@ -116,6 +116,8 @@ SETGET = '''
 //@   ensures[frame_other_metrics] (forall-in (m 0 {N1}) (=> (not (and (isnil result) (= m (midx{v} abv)))) (= (field{v} {r} m) (field{v} (old {r}) m))))
 //@   ensures[fail_unchanged] (=> (not (isnil result)) (= {r} (old {r})))
 //@   ensures[wf_preserved] (wf{v} {r})
+//@   ensures[vals_array] (=> (isnil result) (= (valsarr{v} {r}) (store (valsarr{v} (old {r})) (midx{v} abv) (vcode{v} (midx{v} abv) value))))
+//@   ensures[error_value] (=> (not (isnil result)) (= result (ite (< (midx{v} abv) 0) (PErr T_ErrInvalidMetric abv) ErrInvalidMetricValue)))
 //@   ensures[err_unknown_metric] (=> (< (midx{v} abv) 0) (and (is-ErrInvalidMetric result) (str= (pabv result) abv)))
 //@   ensures[err_illegal_value] (=> (and (>= (midx{v} abv) 0) (= (vcode{v} (midx{v} abv) value) #xff)) (= result ErrInvalidMetricValue))
 //@   allocs 0
@@ -159,11 +161,50 @@ KVM = '''
 
 //@ smt (define-fun kvmflag ((k kvm) (m Int)) Bool (ite (= m 0) (kvm.av k) (ite (= m 1) (kvm.ac k) (ite (= m 2) (kvm.pr k) (ite (= m 3) (kvm.ui k) (ite (= m 4) (kvm.s k) (ite (= m 5) (kvm.c k) (ite (= m 6) (kvm.i k) (ite (= m 7) (kvm.a k) (ite (= m 8) (kvm.e k) (ite (= m 9) (kvm.rl k) (ite (= m 10) (kvm.rc k) (ite (= m 11) (kvm.cr k) (ite (= m 12) (kvm.ir k) (ite (= m 13) (kvm.ar k) (ite (= m 14) (kvm.mav k) (ite (= m 15) (kvm.mac k) (ite (= m 16) (kvm.mpr k) (ite (= m 17) (kvm.mui k) (ite (= m 18) (kvm.ms k) (ite (= m 19) (kvm.mc k) (ite (= m 20) (kvm.mi k) (ite (= m 21) (kvm.ma k) false)))))))))))))))))))))))
 
+//@ smt (define-fun kvmarr ((k kvm)) (Array Int Bool) (store (store (store (store (store (store (store (store (store (store (store (store (store (store (store (store (store (store (store (store (store (store ((as const (Array Int Bool)) false) 0 (kvm.av k)) 1 (kvm.ac k)) 2 (kvm.pr k)) 3 (kvm.ui k)) 4 (kvm.s k)) 5 (kvm.c k)) 6 (kvm.i k)) 7 (kvm.a k)) 8 (kvm.e k)) 9 (kvm.rl k)) 10 (kvm.rc k)) 11 (kvm.cr k)) 12 (kvm.ir k)) 13 (kvm.ar k)) 14 (kvm.mav k)) 15 (kvm.mac k)) 16 (kvm.mpr k)) 17 (kvm.mui k)) 18 (kvm.ms k)) 19 (kvm.mc k)) 20 (kvm.mi k)) 21 (kvm.ma k)))
+
 //@ func (*kvm).Set(kvm, abv)
 //@   modifies kvm
 //@   ensures[unknown] (=> (< (midx{v} abv) 0) (and (is-ErrInvalidMetric result) (str= (pabv result) abv) (= kvm (old kvm))))
 //@   ensures[duplicate] (=> (and (>= (midx{v} abv) 0) (kvmflag (old kvm) (midx{v} abv))) (and (is-ErrDefinedN result) (str= (pabv result) abv) (= kvm (old kvm))))
 //@   ensures[fresh] (=> (and (>= (midx{v} abv) 0) (not (kvmflag (old kvm) (midx{v} abv)))) (and (isnil result) (forall-in (m 0 21) (= (kvmflag kvm m) (or (kvmflag (old kvm) m) (= m (midx{v} abv)))))))
+//@   ensures[seen_array] (and (=> (>= (midx{v} abv) 0) (= (isnil result) (not (select (kvmarr (old kvm)) (midx{v} abv))))) (=> (isnil result) (= (kvmarr kvm) (store (kvmarr (old kvm)) (midx{v} abv) true))) (=> (not (isnil result)) (= kvm (old kvm))))
+//@   ensures[error_kind] (and (=> (< (midx{v} abv) 0) (= result (PErr T_ErrInvalidMetric abv))) (=> (and (>= (midx{v} abv) 0) (not (isnil result))) (= result (PErr T_ErrDefinedN abv))))
+'''
+
+SPLITCOUPLE = '''
+// ---- splitCouple (C01, C06, C18): cut an element at its first ':' ----
+
+//@ func splitCouple(couple)
+//@   loop 1 invariant[bounds] (and (<= 0 i) (<= i (len couple)))
+//@   loop 1 invariant[no_colon_before] (forall ((p Int)) (! (=> (and (<= couple.off p) (< p (+ couple.off i))) (not (= (select couple.arr p) #x3a))) :pattern ((select couple.arr p))))
+//@   loop 1 decreases (- (len couple) i)
+//@   ensures[key] (same-str result.0 (elemkey couple))
+//@   ensures[value] (same-str result.1 (elemval couple))
+//@   allocs 0
+'''
+
+PARSE3 = '''
+// ---- ParseVector (C01, C06, C13, C18) against the reference fold parseRes{v} ----
+
+
+//@ func ParseVector(vector)
+//@   opt split_returns
+//@   callee_posts (*kvm).Set seen_array error_kind
+//@   callee_posts (*{T}).Set ok_iff_legal wf_preserved vals_array error_value
+//@   loop 1 invariant[bounds] (and (<= 0 start) (<= start i) (<= i (+ l 1)) (or (<= i l) (= start (+ l 1))) (= l (- (len vector) 9)) (hasHeader{v} vector))
+//@   loop 1 invariant[nosep] (forall ((p Int)) (! (=> (and (<= (+ (+ vector.off 9) start) p) (< p (+ (+ vector.off 9) i))) (not (= (select vector.arr p) #x2f))) :pattern ((select vector.arr p))))
+//@   loop 1 invariant[fold] (let ((V (substr vector 9 (len vector)))) (= (fold{v} V 0 noneSeen noVals) (fold{v} V start (kvmarr kvm) (valsarr{v} {r}))))
+//@   loop 1 invariant[wf] (wf{v} {r})
+//@   loop 1 decreases (- (+ l 2) i)
+//@   lemma[element_end] after splitCouple#1 (let ((V (substr vector 9 (len vector)))) (= (nextsep V start) i))
+//@   assume_def[unfold_fold_at_element] after splitCouple#1 (let ((V (substr vector 9 (len vector)))) (fold{v}_def V start (kvmarr kvm) (valsarr{v} {r})))
+//@   assume_def[unfold_fold_at_end] exit loop1 (let ((V (substr vector 9 (len vector)))) (fold{v}_def V start (kvmarr kvm) (valsarr{v} {r})))
+//@   ensures[spec_error] (= result.1 (p.err (parseRes{v} vector)))
+//@   ensures[accept_iff_grammar] (= (isnil result.1) (= (p.err (parseRes{v} vector)) Nil))
+//@   ensures[accept_implies_prefix] (=> (isnil result.1) (hasHeader{v} vector))
+//@   ensures[accept_object] (=> (isnil result.1) (and (not (isnil result.0)) (wf{v} (deref result.0)) (forall-in (m 0 21) (= (field{v} (deref result.0) m) (select (p.vals (parseRes{v} vector)) m)))))
+//@   ensures[reject_nil] (=> (not (isnil result.1)) (isnil result.0))
 '''
 
 RATING = '''
@@ -209,6 +250,8 @@ def gen(v):
         parts.append(MOD)
     if v in ('30', '31'):
         parts.append(KVM)
+        parts.append(SPLITCOUPLE)
+        parts.append(PARSE3)
     if v != '20':
         parts.append(RATING)
     if v == '40':
